@@ -34,11 +34,18 @@ STRS = [
     "\u00a0nbsp\u00a0", "x\u2028", "\u2028", "\u3000wide", "\x0bvt\x0c",
     "\U0001F600 non-BMP \U0001D518", "1.0", "1e3", "-0", "None", "True", "NaN", "[]", "{}", "\"q\"", "\\",
     "L" * 3000,
+    # format-hostile text (anything that is logged, %-formatted, str.format-ed or embedded)
+    "%", "%s %d", "%(x)s", "{}", "{0}", "{x}", "}{", "\u2029", "\u0085", "'", "\"", "\\n", "${HOME}", "\x00", "\x7f",
 ]
 # strings whose ends (or whole content) a "tolerant" validator would alter
 EDGE_STRS = [" lead", "trail ", "line\n", "\tindented\n    code\n", " 7 ", "\u00a0nbsp\u00a0", "x\u2028", "", "  ", "\r\n",
              "1", "true", "null", "\U0001F600", "\u3000wide"]
-INTS = [0, 1, 0, 1, -1, 2, 42, 100, 2**31, 2**53 + 1, -(2**63), 10**20]
+INTS = [0, 1, 0, 1, -1, 2, 7, 42, 100, 2**31, 2**53 + 1, -(2**63), 10**20]
+# falsy value(s) of each leaf kind / container, and type twins that Python equates (only where the
+# declared type admits them: 7.0 for an int or float member, "7"/"true"/"0"/"" for a str member)
+FALSY = {"str": [""], "int": [0, 0.0], "float": [0, 0.0], "bool": [False], "any": [0, "", False, [], {}, 0.0]}
+TWINS = {"str": ["7", "7.0", "true", "0", "False", "None"], "int": [7, 7.0, 1, 1.0], "float": [7, 7.0, 1, 1.0],
+         "bool": [True, False], "any": [7, "7", 7.0, True, 1, "1", 0, False, "", None, [None], {"k": None}]}
 FLOATS = [0.5, 0.25, 1.5, -2.75, 1e-3, 3.0, 1.0, 0.0, 0, 1, 7, 1e100, 2.5e-7]
 EXTRA_NAMES = ["x", "extra", "note", "_custom", "X-Y", "data2", "annotations2", "kind", "self", " pad ", "tab\t", "", "\U0001F600"]
 ANY_KEYS = ["a", "b", "type", "text", "meta", "_meta", "schema", "schema_", "progressToken", "n", " k ", "", "nl\n"]
@@ -367,6 +374,8 @@ class Gen:
         k = t["k"]
         if k == leaf:
             return sval
+        if leaf == "empty" and k in ("list", "dict"):
+            return [] if k == "list" else {}
         if k == "opt":
             return self.with_str(t["t"], sval, leaf)
         if k == "list":
